@@ -206,9 +206,9 @@ PROPS["C11"] = {
                  "length preserved, one draw per gene, rate 0 identity, rate >= 1 everything flipped; UMAD on Vector<u8> with position-tagged parents of length 0,1,2, "
                  "a probe gene generator (tags 100,101,.. in generation order) and rates from {0,1/2,1} (9 instances incl. the three empty-genome modes): surviving parent genes in order, "
                  "new genes are generator outputs in order, at most one insertion per parent position, empty parent <= 1 gene (0 when disabled), degenerate-rate clauses",
-        "thorough": "as quick plus bit-flip lengths 2,4 / 1,3,6",
+        "thorough": "as quick plus bit-flip lengths 2,4 / 1,3,6 and UMAD on one-gene parents with (add,del) in {(1/2,1/2),(0,0),(1,0),(1/2,1)}",
     },
-    "outside": "UMAD on parents longer than 2 and with two symbolic rates at once (measured: > 15 min); UMAD on Plushy / Bitstring genomes (same generic code, other element types); bit vectors longer than 6",
+    "outside": "UMAD on parents longer than 1 (measured: 14 GB exhausted after 16 min for 2 genes) and with symbolic rates; UMAD on Plushy / Bitstring genomes (same generic code, other element types); bit vectors longer than 6",
     "assumptions": ["rand 0.9.0 sampling algorithms run unmodified on the symbolic generator"],
 }
 PROPS["C12"] = {
@@ -222,13 +222,13 @@ PROPS["C12"] = {
     "bounds": {
         "quick": "measure characterisation, for ALL random words and a SYMBOLIC rate: WithRate flips gene i iff (w_i >> 8) < ceil(rate*2^24) (its own word only; probability within 2^-24 of the rate), "
                  "lengths 0..=4; WithOneOverLength the same with rate 1/L and L*threshold = 2^24 +- L (one expected flip); UMAD child == reference built from the same words (add coin, delete coin, "
-                 "delete-new coin only after an addition, generator call only for surviving additions: new genes are subject to deletion with the deletion rate), rates {0,1/2,1} for L <= 2 and "
-                 "one symbolic rate in [0,1] for L = 1; coin(p) = word < floor(p*2^64), p = 1 without a draw; uniform crossover is decided under C10 (top bit of word i); Bitstring::random "
+                 "delete-new coin only after an addition, generator call only for surviving additions: new genes are subject to deletion with the deletion rate) on empty parents (quick) and "
+                 "one-gene parents with rates from {0,1/2,1} (thorough); coin(p) = word < floor(p*2^64), p = 1 without a draw; uniform crossover is decided under C10 (top bit of word i); Bitstring::random "
                  "bit i = top bit of word i; random_with_probability / BoolGenerator = coin(p) with symbolic p; Plushy gene: close iff (w >> 8) < ceil(p*2^24) else exactly one sample of the "
                  "instruction distribution, default p = 1/(n+1) for a symbolic n <= 2^24",
-        "thorough": "as quick plus the thorough bit-flip lengths",
+        "thorough": "as quick plus the thorough bit-flip lengths and UMAD on one-gene parents, 4 rate pairs",
     },
-    "outside": "'expected size preserved when deletion = addition/(1+addition)' is the arithmetic corollary of the verified draw protocol (not re-proved); UMAD with L > 2 or two symbolic rates; "
+    "outside": "'expected size preserved when deletion = addition/(1+addition)' is the arithmetic corollary of the verified draw protocol (not re-proved); UMAD with parents longer than 1 gene or symbolic rates (solver budget); "
                "the definition of a uniform variate is rand 0.9.0's StandardUniform/Bernoulli algorithms (version guard on Cargo.lock)",
     "assumptions": ["distinct random words are independent and uniform (the measure of {w : w < t} is t/2^k)"],
 }
